@@ -35,6 +35,8 @@ add("C10", "Hypothesis grammar-based generator of targets / shape maps + indepen
     "Selectors generated from a grammar are evaluated directly on the abstract triples by an independent evaluator; the labels, instance counts and the full recomputation of figures and key sets restricted to that selection must match the output.", "DESIGN.md 2/C10")
 add("C11", "Hypothesis differential testing of the two serialisations of one Shaper (independent ShExC reader vs rdflib/SHACL reader)",
     "Both outputs of one Shaper are parsed into (shape, direction, predicate, restriction, min, max) tuple sets that must be equal under the mapping table of the property.", "DESIGN.md 2/C11")
+add("C20", "exhaustive enumeration of the argument groups vs a reference predicate transcribed from the property",
+    "No sampling: all presence patterns of the 7 graph sources x 5 target arguments, every single source x valid target x compression x format x examples mode x or-flags, and all threshold x output format x sink combinations are enumerated; raise/no-raise and exception type are compared with a ten-line reference predicate, and every accepted configuration must complete a real extraction (no deferral).", "DESIGN.md 2/C20")
 
 ALL = ["C%02d" % i for i in range(1, 21)]
 def main():
